@@ -45,7 +45,17 @@ class Compile:
             msg = re.sub(r"`[^`]*`", "`_`", m.group(2))
             msg = re.sub(r"#?\d+", "N", msg)
             msg = re.sub(r"^\S+::\S+ N : ", "", msg)
-            return f"panic|{m.group(1)}|{msg[:120]}"
+            # first frame of the backtrace that belongs to the compiler: the function that panicked
+            fn = ""
+            for fm in re.finditer(r"^\s*\d+: (.+)$", t, re.M):
+                name = fm.group(1).strip()
+                if name.startswith(("__rustc", "core::", "std::", "rust_begin_unwind", "<core::", "<std::", "alloc::", "<alloc::")):
+                    continue
+                fn = re.sub(r"::\{\{closure\}\}|::h[0-9a-f]{16}", "", name)
+                break
+            path = m.group(1)
+            path = path[path.index("crates/"):] if "crates/" in path else path.split("/")[-1]
+            return f"panic|{path}|{fn}|{msg[:100]}"
         if self.sig:
             return f"signal|{self.sig}"
         m = re.search(r"(Cranelift Error|Error defining function|verifier error)[^\n]*(\n[^\n]*)?", t)
